@@ -1,6 +1,6 @@
 from engine.runner import Ob
 ASSUMPTIONS = [
-    "first use A = catalogue context (document or fragment) + one of 39 state-leaving tokens (pre / textarea / table text / raw-text and RCDATA openers / formatting / 260 distinct unknown start or end tags to overflow the handler caches ...), completed, aborted by a strict-mode ParseError, or aborted by the source raising at the 2nd or 3rd read; second use B = one of 24 state-sensitive documents / fragments; all by symbolic index, run concretely after the fork on etree and dom",
+    "first use A = catalogue context (document or fragment) + one of 39 state-leaving tokens (pre / textarea / table text / raw-text and RCDATA openers / formatting / 260 distinct unknown start or end tags to overflow the handler caches ...), completed, aborted by a strict-mode ParseError, or aborted by the source raising at the 2nd or 3rd read; second use B = one of 28 state-sensitive documents / fragments; all by symbolic index, run concretely after the fork on etree and dom",
     "the per-phase handler caches are live (no bypass); only MethodDispatcher lookup is the linear-scan substitute",
     "any state an aborted parse can leave is assumed to be an instance of the states reached by these A runs (abort points: first recorded error; after the first / second chunk)",
 ]
@@ -14,10 +14,10 @@ def obligations(tier):
               encodes=["html5lib/serializer.py:HTMLSerializer.serialize", "html5lib/serializer.py:HTMLSerializer.render"])]
     ctxs = list(range(len(pc.CONTEXTS)))
     if q:
-        ctxs = ctxs[::4]
+        ctxs = ctxs[::6]
     for c in ctxs:
         prefix, cont = pc.CONTEXTS[c]
         obs.append(Ob("C12.reuse/ctx%02d" % c, "crosshair", "harness.C12:reuse", T, param={"actx": c},
-                      bounds="A = context %r%s + 39 tokens x {completed, strict abort, source fails at read 2, at read 3}; B = 24 documents / fragments; etree and dom" % (prefix, " (fragment in %r)" % cont if cont else ""),
+                      bounds="A = context %r%s + 39 tokens x {completed, strict abort, source fails at read 2, at read 3}; B = 28 documents / fragments; etree and dom" % (prefix, " (fragment in %r)" % cont if cont else ""),
                       encodes=["html5lib/html5parser.py:HTMLParser._parse", "html5lib/html5parser.py:HTMLParser.reset", "html5lib/html5parser.py:Phase.processStartTag", "html5lib/html5parser.py:Phase.processEndTag", "html5lib/html5parser.py:InTableTextPhase", "html5lib/html5parser.py:InBodyPhase.processSpaceCharacters*", "html5lib/treebuilders/base.py:TreeBuilder.reset"]))
     return obs
